@@ -814,7 +814,7 @@ FIXED = [
     ([2, 0, 1, 1, 0, 7, 2, 1, 1, 102, 4, 0, 1, 1, 0], 'refused-compound'),
     ([2, 0, 1, 1, 0, 7, 2, 1, 1, 102, 5, 0, -2, 2, 0, 1], 'refused-compound'),
     ([2, 0, 1, 2, 0, 1, 102, 4, 0, 0, 0, 4, 0, 0, 1, 0, 11, 4, 0, 0, 1, 0, 4, 0, 0, 0], 'refused-compound'),
-    # empty id lists (b553e6b)
+    # empty id lists (dcb2b38)
     ([1, 0, 5, 0, -1, 0, 7, 0, 0, 0, 9, 0, 0, 0, 4, 1, 0, 0, 14, 0], 'empty-lists'),
     # numbers at the edges
     ([3, 0, 1, 2, 1, 0, -2147483648, 1, 1, -1, 1, 2, 2147483647, 11, 1, 0, -1, 1, 1, -2147483648], 'number-boundary'),
@@ -840,7 +840,7 @@ FIXED = [
     # atom id wider than the 31-bit field
     ([0, 9, 4294967295, 0, 0, 9, 2147483648, 0, 0, 13, 1, 0], 'atom-31bit'),
 ]
-# seeded change C12-r7 / repairs c8d69a9, 7625ba8: an item of an earlier step re-defined from its OWN stored content (the harness
+# seeded change C12-r7 / repairs 4c76fde, fe607fc: an item of an earlier step re-defined from its OWN stored content (the harness
 # passes the store's span / symbol in these cases: alias_mode != 0)
 FIXED += [(with_alias(pr, ops, (1, 3)), 'own-content') for pr, ops in [
     # 10 := f(1..6), 11 := (1..6); update; 10 := g(own args), 11 := {own args}
